@@ -302,7 +302,8 @@ fn run_f32(ctx: &mut Ctx) {
                         4 => f32::from_bits(rng.below(0x0080_0000) as u32), // denormal
                         5 => 3.0e38,
                         6 => 1.0e-30,
-                        7 => (rng.unit() * 2.0 - if alpha { 0.0 } else { 1.0 }) as f32,
+                        // negative alpha is reachable after an overshooting filter: c/a and c*a all the same
+                        7 => (rng.unit() * 2.0 - if alpha && rng.chance(1, 2) { 0.0 } else { 1.0 }) as f32,
                         8 => -(rng.unit() as f32) * 1000.0 * if alpha { -1.0 } else { 1.0 },
                         _ => rng.unit() as f32,
                     }
